@@ -110,6 +110,7 @@ class Builder:
         self.assumptions: list[Any] = []
         self.choice = choice or {}
         self.choice_space: dict[str, int] = {}
+        self.named: dict[str, Any] = {}
 
     def assume(self, c: Any) -> None:
         self.assumptions.append(c)
